@@ -93,14 +93,20 @@ procedure consolidate(needs_init, load_new)
         nloaded := Cardinality({j \in 1..Len(newSlots) : slots[newSlots[j]].idx = "loaded"});
         checked := 0; needGen := FALSE;
      };
+ K3b: \* refuse before anything is changed if the new files cannot all be placed (slots of files that still exist are no candidates)
+     if (Len(add) > NSlots - Len(keep)) { insufficient := TRUE; consres[self] := FALSE; wlock := NoOne; return; };
  K4: while (add # <<>>) {
         if (checked = NSlots) { insufficient := TRUE; consres[self] := FALSE; wlock := NoOne; return; };
  K4s:   c := nextFree; nextFree := (nextFree + 1) % NSlots; checked := checked + 1;
-        if (slots[c].file # NoFile) {
+        if (c \in Range(newSlots)) {
+           \* the slot holds a file that still exists (or was just placed): not a candidate
+           skip;
+        } else if (slots[c].file # NoFile) {
            await slock[c] = NoOne; slock[c] := self;
            slots[c].gen := idxobjs[cur].gen + 1;
  K4b:      slots[c] := [file |-> Head(add), gen |-> slots[c].gen, idx |-> "unloaded", pack |-> "unloaded"];
            slock[c] := NoOne; needGen := TRUE;
+           remove := SelectSeq(remove, LAMBDA t : t # c);
            newSlots := Append(newSlots, c); add := Tail(add);
         } else {
            await slock[c] = NoOne;
@@ -191,7 +197,7 @@ process (Git = "git")
     }
 }
 } *)
-\* BEGIN TRANSLATION (chksum(pcal) = "4cc2515d" /\ chksum(tla) = "e6709a6e")
+\* BEGIN TRANSLATION (chksum(pcal) = "5a232872" /\ chksum(tla) = "b16a6b9a")
 CONSTANT defaultInitValue
 VARIABLES pc, disk, used, slots, idxobjs, cur, wlock, slock, envSteps, panic, 
           wrong, insufficient, snap, lnres, consres, loires, stack
@@ -450,13 +456,44 @@ K3(self) == /\ pc[self] = "K3"
                        /\ nloaded' = [nloaded EXCEPT ![self] = Cardinality({j \in 1..Len(newSlots'[self]) : slots[newSlots'[self][j]].idx = "loaded"})]
                        /\ checked' = [checked EXCEPT ![self] = 0]
                        /\ needGen' = [needGen EXCEPT ![self] = FALSE]
-                       /\ pc' = [pc EXCEPT ![self] = "K4"]
+                       /\ pc' = [pc EXCEPT ![self] = "K3b"]
                        /\ UNCHANGED << wlock, snap, consres, stack, needs_init, 
                                        load_new, i0, generation, c, g2 >>
             /\ UNCHANGED << disk, used, slots, idxobjs, cur, slock, envSteps, 
                             panic, wrong, insufficient, lnres, loires, io0, io, 
                             prev, k, s, changed, li, tgt, res, lookups, 
                             present0, e, pinned, got >>
+
+K3b(self) == /\ pc[self] = "K3b"
+             /\ IF Len(add[self]) > NSlots - Len(keep[self])
+                   THEN /\ insufficient' = TRUE
+                        /\ consres' = [consres EXCEPT ![self] = FALSE]
+                        /\ wlock' = NoOne
+                        /\ pc' = [pc EXCEPT ![self] = Head(stack[self]).pc]
+                        /\ i0' = [i0 EXCEPT ![self] = Head(stack[self]).i0]
+                        /\ keep' = [keep EXCEPT ![self] = Head(stack[self]).keep]
+                        /\ add' = [add EXCEPT ![self] = Head(stack[self]).add]
+                        /\ remove' = [remove EXCEPT ![self] = Head(stack[self]).remove]
+                        /\ nloaded' = [nloaded EXCEPT ![self] = Head(stack[self]).nloaded]
+                        /\ nextFree' = [nextFree EXCEPT ![self] = Head(stack[self]).nextFree]
+                        /\ checked' = [checked EXCEPT ![self] = Head(stack[self]).checked]
+                        /\ needGen' = [needGen EXCEPT ![self] = Head(stack[self]).needGen]
+                        /\ generation' = [generation EXCEPT ![self] = Head(stack[self]).generation]
+                        /\ c' = [c EXCEPT ![self] = Head(stack[self]).c]
+                        /\ g2' = [g2 EXCEPT ![self] = Head(stack[self]).g2]
+                        /\ newSlots' = [newSlots EXCEPT ![self] = Head(stack[self]).newSlots]
+                        /\ needs_init' = [needs_init EXCEPT ![self] = Head(stack[self]).needs_init]
+                        /\ load_new' = [load_new EXCEPT ![self] = Head(stack[self]).load_new]
+                        /\ stack' = [stack EXCEPT ![self] = Tail(stack[self])]
+                   ELSE /\ pc' = [pc EXCEPT ![self] = "K4"]
+                        /\ UNCHANGED << wlock, insufficient, consres, stack, 
+                                        needs_init, load_new, i0, keep, add, 
+                                        remove, nloaded, nextFree, checked, 
+                                        needGen, generation, c, g2, newSlots >>
+             /\ UNCHANGED << disk, used, slots, idxobjs, cur, slock, envSteps, 
+                             panic, wrong, snap, lnres, loires, io0, io, prev, 
+                             k, s, changed, li, tgt, res, lookups, present0, e, 
+                             pinned, got >>
 
 K4(self) == /\ pc[self] = "K4"
             /\ IF add[self] # <<>>
@@ -501,18 +538,22 @@ K4s(self) == /\ pc[self] = "K4s"
              /\ c' = [c EXCEPT ![self] = nextFree[self]]
              /\ nextFree' = [nextFree EXCEPT ![self] = (nextFree[self] + 1) % NSlots]
              /\ checked' = [checked EXCEPT ![self] = checked[self] + 1]
-             /\ IF slots[c'[self]].file # NoFile
-                   THEN /\ slock[c'[self]] = NoOne
-                        /\ slock' = [slock EXCEPT ![c'[self]] = self]
-                        /\ slots' = [slots EXCEPT ![c'[self]].gen = idxobjs[cur].gen + 1]
-                        /\ pc' = [pc EXCEPT ![self] = "K4b"]
-                        /\ UNCHANGED << add, newSlots >>
-                   ELSE /\ slock[c'[self]] = NoOne
-                        /\ slots' = [slots EXCEPT ![c'[self]] = [file |-> Head(add[self]), gen |-> idxobjs[cur].gen, idx |-> "unloaded", pack |-> "unloaded"]]
-                        /\ newSlots' = [newSlots EXCEPT ![self] = Append(newSlots[self], c'[self])]
-                        /\ add' = [add EXCEPT ![self] = Tail(add[self])]
+             /\ IF c'[self] \in Range(newSlots[self])
+                   THEN /\ TRUE
                         /\ pc' = [pc EXCEPT ![self] = "K4"]
-                        /\ slock' = slock
+                        /\ UNCHANGED << slots, slock, add, newSlots >>
+                   ELSE /\ IF slots[c'[self]].file # NoFile
+                              THEN /\ slock[c'[self]] = NoOne
+                                   /\ slock' = [slock EXCEPT ![c'[self]] = self]
+                                   /\ slots' = [slots EXCEPT ![c'[self]].gen = idxobjs[cur].gen + 1]
+                                   /\ pc' = [pc EXCEPT ![self] = "K4b"]
+                                   /\ UNCHANGED << add, newSlots >>
+                              ELSE /\ slock[c'[self]] = NoOne
+                                   /\ slots' = [slots EXCEPT ![c'[self]] = [file |-> Head(add[self]), gen |-> idxobjs[cur].gen, idx |-> "unloaded", pack |-> "unloaded"]]
+                                   /\ newSlots' = [newSlots EXCEPT ![self] = Append(newSlots[self], c'[self])]
+                                   /\ add' = [add EXCEPT ![self] = Tail(add[self])]
+                                   /\ pc' = [pc EXCEPT ![self] = "K4"]
+                                   /\ slock' = slock
              /\ UNCHANGED << disk, used, idxobjs, cur, wlock, envSteps, panic, 
                              wrong, insufficient, snap, lnres, consres, loires, 
                              stack, io0, io, prev, k, s, changed, needs_init, 
@@ -524,14 +565,15 @@ K4b(self) == /\ pc[self] = "K4b"
              /\ slots' = [slots EXCEPT ![c[self]] = [file |-> Head(add[self]), gen |-> slots[c[self]].gen, idx |-> "unloaded", pack |-> "unloaded"]]
              /\ slock' = [slock EXCEPT ![c[self]] = NoOne]
              /\ needGen' = [needGen EXCEPT ![self] = TRUE]
+             /\ remove' = [remove EXCEPT ![self] = SelectSeq(remove[self], LAMBDA t : t # c[self])]
              /\ newSlots' = [newSlots EXCEPT ![self] = Append(newSlots[self], c[self])]
              /\ add' = [add EXCEPT ![self] = Tail(add[self])]
              /\ pc' = [pc EXCEPT ![self] = "K4"]
              /\ UNCHANGED << disk, used, idxobjs, cur, wlock, envSteps, panic, 
                              wrong, insufficient, snap, lnres, consres, loires, 
                              stack, io0, io, prev, k, s, changed, needs_init, 
-                             load_new, i0, keep, remove, nloaded, nextFree, 
-                             checked, generation, c, g2, li, tgt, res, lookups, 
+                             load_new, i0, keep, nloaded, nextFree, checked, 
+                             generation, c, g2, li, tgt, res, lookups, 
                              present0, e, pinned, got >>
 
 K5(self) == /\ pc[self] = "K5"
@@ -670,9 +712,9 @@ K8(self) == /\ pc[self] = "K8"
                             prev, k, s, changed, li, tgt, res, lookups, 
                             present0, e, pinned, got >>
 
-consolidate(self) == K1(self) \/ K2(self) \/ K3(self) \/ K4(self)
-                        \/ K4s(self) \/ K4b(self) \/ K5(self) \/ K6(self)
-                        \/ K6b(self) \/ K7(self) \/ K8(self)
+consolidate(self) == K1(self) \/ K2(self) \/ K3(self) \/ K3b(self)
+                        \/ K4(self) \/ K4s(self) \/ K4b(self) \/ K5(self)
+                        \/ K6(self) \/ K6b(self) \/ K7(self) \/ K8(self)
 
 LO1(self) == /\ pc[self] = "LO1"
              /\ li' = [li EXCEPT ![self] = cur]
